@@ -224,12 +224,19 @@ func runCheck(env *Env, id, tier string, spec *CheckSpec, doReplay bool) int {
 		}
 		var mjobs []*Job
 		for _, js := range byModule[mod] {
-			cfgs := js.CfgsQuick
-			if tierN == 1 && len(js.CfgsThorough) > 0 {
-				cfgs = js.CfgsThorough
-			}
-			for _, c := range cfgs {
-				mjobs = append(mjobs, &Job{Entry: js.Entry, Cfg: c, Tier: tierN, Prop: id})
+			if tierN == 1 && len(js.CfgsThorough)+len(js.CfgsDeep) > 0 {
+				// thorough: more configurations at the quick tier's history depth, plus the configurations for which the
+				// deeper histories are affordable
+				for _, c := range js.CfgsThorough {
+					mjobs = append(mjobs, &Job{Entry: js.Entry, Cfg: c, Tier: 0, Prop: id})
+				}
+				for _, c := range js.CfgsDeep {
+					mjobs = append(mjobs, &Job{Entry: js.Entry, Cfg: c, Tier: 1, Prop: id})
+				}
+			} else {
+				for _, c := range js.CfgsQuick {
+					mjobs = append(mjobs, &Job{Entry: js.Entry, Cfg: c, Tier: tierN, Prop: id})
+				}
 			}
 		}
 		mrr := runJobs(env, mld, mjobs, specByEntry)
@@ -487,7 +494,11 @@ func runCheck(env *Env, id, tier string, spec *CheckSpec, doReplay bool) int {
 	files := sourceFilesOf(rr.funcs)
 	jobList := []string{}
 	for _, j := range jobs {
-		jobList = append(jobList, fmt.Sprintf("%s/cfg%d:paths=%d", j.Entry, j.Cfg, j.res.paths))
+		deep := ""
+		if j.Tier == 1 {
+			deep = "/deep"
+		}
+		jobList = append(jobList, fmt.Sprintf("%s/cfg%d%s:paths=%d", j.Entry, j.Cfg, deep, j.res.paths))
 	}
 	cov := map[string]any{
 		"states":                                max(totalPaths, 0),
